@@ -163,6 +163,23 @@ func (a *ScriptApp) get(h uint64) *stored {
 	defer a.mu.Unlock()
 	return a.blocks[h]
 }
+// Prune forgets what BlockStore.DeleteHistoricalData(keep) deletes: every block (meta, parts, commits) of a height
+// <= Height()-keep.
+func (a *ScriptApp) Prune(keep uint64) (deleted int) {
+	a.mu.Lock()
+	defer a.mu.Unlock()
+	if keep > a.height {
+		return 0
+	}
+	for h := uint64(1); h <= a.height-keep; h++ {
+		if _, ok := a.blocks[h]; ok {
+			delete(a.blocks, h)
+			deleted++
+		}
+	}
+	return deleted
+}
+
 func (a *ScriptApp) LoadBlockMeta(h uint64) *types.BlockMeta {
 	if s := a.get(h); s != nil {
 		return types.NewBlockMeta(s.block, s.parts)
